@@ -33,12 +33,12 @@ type c07Case struct {
 	Ops    []hop        `json:"ops"`
 	Points []int        `json:"points,omitempty"` // explicit crash points (replay of a single failing point)
 	// PointName/PointOcc: replay of one failing point by name: crash at the PointOcc-th hit of PointName
-	PointName string `json:"pointName,omitempty"`
-	PointOcc  int64  `json:"pointOcc,omitempty"`
-	Sample int          `json:"sample"`           // number of crash points to sample (0 = all)
-	Pick   int64        `json:"pick"`             // sampling salt
-	Extra  *model.Event `json:"extra,omitempty"`  // event ingested after the restart
-	PreQ   bool         `json:"preQuery"`         // run a filter query first so that it becomes a persistent query
+	PointName string       `json:"pointName,omitempty"`
+	PointOcc  int64        `json:"pointOcc,omitempty"`
+	Sample    int          `json:"sample"`          // number of crash points to sample (0 = all)
+	Pick      int64        `json:"pick"`            // sampling salt
+	Extra     *model.Event `json:"extra,omitempty"` // event ingested after the restart
+	PreQ      bool         `json:"preQuery"`        // run a filter query first so that it becomes a persistent query
 	// Prior: before the history, an earlier life of the server on the same data directory accepted one event
 	// per index and was killed before any flush (it leaves segment directories without metadata behind)
 	Prior bool `json:"prior,omitempty"`
